@@ -226,6 +226,8 @@ def drain_order_problems(finals):
 
 
 def run(repo, rep):
+    from ..pitfalls import memo_rule as _memo_rule
+    _memo_rule(repo, rep, 'C03', 'C03.Z1')
     model = FsmModel(repo)
     pm = ProviderModel(repo, model)
     off, size, hdr, big = header_layout(repo)
